@@ -54,6 +54,15 @@ check("C20", "histbfs", "model_checking",
       "Bounded depth (2-5 quick, 3-7 thorough depending on alphabet); which of returned/stored value wins is not judged.",
       "explicit-state BFS of operation histories on real states with a reference model", "DESIGN.md §4 C20")
 
+check("C16", "inputenum", "exploration",
+      "Exhaustive enumeration of string literal forms (every escape, \\ddd for 0..255 in every width/follow context, backslash-newline in four line-end styles, long brackets of level 0-3 over a 7-byte alphabet), of %q round trips (all byte strings of length <= 2 plus a 9-byte alphabet to length 4), of numeral spellings (all strings up to length 5/7 over a 16-letter alphabet through eleven readers: lexer, tonumber with and without base, arithmetic coercion), of tostring/tonumber value families with 1-ulp neighbours, and of os.date/os.time over three fixed-offset zones and ~270k timestamps per zone.",
+      "Alphabets and bounds as listed in the evidence; spellings on which ISO C strtod and the property text disagree are not judged.",
+      "small-scope exhaustive input enumeration against reference grammars written from the manual", "DESIGN.md §4 C16")
+check("C17", "luaref+gen+glrun", "exploration",
+      "30 fault-site kinds x 10 enclosing block kinds x a layout set (four line-end styles, tabs, indentation, semicolons, leading lines, six comment forms, redundant parentheses, and a line break inserted at every single token gap of the program); the reference interpreter derives the admissible line range from the token lines recorded by the printer for that very layout. debug.getinfo currentline/linedefined/lastlinedefined probes and debug.getlocal/getupvalue/setlocal/setupvalue probes inserted at every statement gap of ten scope-exercising programs.",
+      "A statement spread over several lines admits any of its lines; temporaries and hidden loop variables are ignored; upvalue lists are compared as sets.",
+      "small-scope exhaustive enumeration of programs x layouts against an executable reference model with token positions", "DESIGN.md §4 C17")
+
 engines = [
  {"name":"histbfs","path":"internal/props (c09.go, c18.go, ...)","kind_free_text":"explicit-state BFS over operation histories; successor = replay on a fresh real object + 1 operation; state key = reference model + white-box layout"},
  {"name":"luaref+gen+glrun","path":"internal/luaref, internal/glrun, internal/props/progrun.go","kind_free_text":"bounded-exhaustive program generators, reference Lua 5.1 interpreter, trace comparison with gopher-lua"},
